@@ -92,6 +92,7 @@ PostLinkFails(e, pre) ==
 
 (* ---- the reply to a read step itself ---------------------------------------------------------------------------------- *)
 ReplyFails(e, t) ==
+  IF "reply" \notin DOMAIN e THEN {} ELSE
   CASE e.op = "get" ->
          LET a == ArtsOf(t, e.path) IN
          IF e.reply.present # (e.id \in DOMAIN a) THEN {"ids"}
@@ -208,17 +209,43 @@ ReloadAdopt(e) == /\ nodes' = TreeOfDisk(e.disk)
                   /\ out' = [op |-> "reload"]
                   /\ UNCHANGED uname
 
+(* A step the server did not answer (`noreply`), answered by closing the connection (`panicked`: the handler's panic is
+   recovered by dropping the connection) or after which it could not be observed any more (`ended`).  The statement
+   does not say what such a request does, so the step is always reported as DRIFT; the model then takes whichever of
+   "took effect" / "did not take effect" agrees with what the server shows on a fresh connection, and the run goes on
+   being judged (an article that was acknowledged earlier and is missing now is still a violation).  If neither
+   agrees, the rest of the run is not judged. *)
+Unanswered(e) == e.panicked \/ e.noreply \/ e.ended
+TreeClean(e, t) == /\ UNION {NodeFails(e, n, t, nodes) : n \in Range(e.live.nodes)} \cap TreeTags = {}
+                   /\ DOMAIN t \cup {<<>>} \subseteq {n.path : n \in Range(e.live.nodes)}
+
+UnansweredEv(e, s) ==
+  LET can == Guard(s) /\ ~(e.op = "reload" /\ ~e.ok)
+      ta == IF can THEN TreeAfter(s) ELSE nodes
+      okA == ~e.ended /\ can /\ TreeClean(e, ta)
+      okU == ~e.ended /\ TreeClean(e, nodes)
+      t == IF okA THEN ta ELSE nodes
+      why == IF e.ended THEN "server not observable any more: run ended"
+             ELSE IF e.panicked THEN "connection closed instead of a reply (handler panicked)"
+             ELSE "no reply within the bound"
+  IN /\ (~Drifted(e) /\ <<e.run, why>> \notin seen =>
+            Report("DRIFT", e, [fails |-> {why}, tookEffect |-> okA, noEffect |-> okU, anom |-> e.anom]))
+     /\ seen' = seen \cup {<<e.run, why>>} \cup (IF okA \/ okU THEN {} ELSE {<<e.run, "drift">>})
+     /\ nodes' = t /\ disk' = t
+     /\ uname' = IF e.op = "setname" THEN e.name ELSE uname
+     /\ out' = [op |-> e.op, unanswered |-> TRUE]
+
 StepEv ==
   LET e == Log[l]
       s == StepOf(e)
   IN
   /\ e.op # "world"
-  /\ IF e.panicked \/ ~Guard(s) \/ (e.op = "reload" /\ ~e.ok)
+  /\ IF Unanswered(e) THEN UnansweredEv(e, s)
+     ELSE IF ~Guard(s) \/ (e.op = "reload" /\ ~e.ok)
        THEN (* not a step of the model: the script should not contain it (or the file could not be loaded: the
                disk view of the previous step has already said so) *)
-            /\ (~Drifted(e) /\ ~(e.op = "reload" /\ ~e.panicked) =>
-                  Report("DRIFT", e, [fails |-> {IF e.panicked THEN "panicked" ELSE "step not enabled in the model"}]))
-            /\ seen' = IF e.op = "reload" /\ ~e.panicked THEN seen ELSE seen \cup {<<e.run, "drift">>}
+            /\ (~Drifted(e) /\ e.op # "reload" => Report("DRIFT", e, [fails |-> {"step not enabled in the model"}]))
+            /\ seen' = IF e.op = "reload" THEN seen ELSE seen \cup {<<e.run, "drift">>}
             /\ UNCHANGED vars
        ELSE /\ IF Adopts(e) THEN ReloadAdopt(e) ELSE Apply(s)
             /\ LET f == Fails(e, nodes', nodes)
